@@ -360,6 +360,9 @@ def mul(a: Sym, b: Sym) -> Sym:
         sign = not sign
         if a.args[0] == 1:
             return neg(b) if sign else b
+    if SQRT_SQUARE_REWRITE and a is b and a.op == "sqrt":
+        r = a.args[0]  # sqrt(x)^2 = x on the domain x >= 0
+        return neg(r) if sign else r
     if a.nid > b.nid:
         a, b = b, a
     r = _mk("mul", (a, b), (a.fp * b.fp) % P)
@@ -542,6 +545,17 @@ def power(a: Sym, p) -> Sym:
     if fl == 0:
         return w
     return mul(powi(a, fl), w)
+
+
+import os as _os
+SQRT_SQUARE_REWRITE = _os.environ.get("SYMOAS_SQRT_REWRITE", "0") == "1"
+UFN_EVAL = {}  # name -> callable(index tuple, [float args]) -> float   (numeric meaning, for validation only)
+
+
+def ufn(name: str, index: tuple, args) -> Sym:
+    """Application of an uninterpreted (separately verified) kernel: name[index](args)."""
+    args = tuple(S(a) for a in args)
+    return _mk("ufn", (name, tuple(index)) + args, _h("ufn", name, tuple(index), tuple(a.fp for a in args)))
 
 
 def ite(c, a: Sym, b: Sym) -> Sym:
@@ -760,6 +774,8 @@ def show(n: Sym, depth=4) -> str:
         return "pow(%s,%s)" % (show(n.args[0], depth - 1), n.args[1])
     if n.op == "ite":
         return "ite(%s,%s,%s)" % (showb(n.args[0]), show(n.args[1], depth - 1), show(n.args[2], depth - 1))
+    if n.op == "ufn":
+        return "%s%s(%s)" % (n.args[0], list(n.args[1]), ",".join(show(a, depth - 1) for a in n.args[2:]))
     return "%s(%s)" % (n.op, show(n.args[0], depth - 1))
 
 
@@ -822,6 +838,8 @@ def evalf(roots, env: dict, cplx=False):
         elif op == "ite":
             c = evalb(n.args[0], val)
             v = val[n.args[1].nid] if c else val[n.args[2].nid]
+        elif op == "ufn":
+            v = UFN_EVAL[n.args[0]](n.args[1], [val[a.nid] for a in n.args[2:]])
         else:
             raise ValueError(op)
         val[n.nid] = v
@@ -890,6 +908,8 @@ def substitute(roots, mapping: dict):
             r = power(new[n.args[0].nid], n.args[1])
         elif op == "ite":
             r = ite(sb(n.args[0]), new[n.args[1].nid], new[n.args[2].nid])
+        elif op == "ufn":
+            r = ufn(n.args[0], n.args[1], [new[a.nid] for a in n.args[2:]])
         else:
             r = {"sqrt": sqrt, "sin": sin, "cos": cos, "atan": atan, "exp": exp, "log": log, "abs": fabs}[op](
                 new[n.args[0].nid]
